@@ -625,6 +625,117 @@ fn huge_snapshot_restart(rep: &mut Report) {
     }
 }
 
+/// The destructor of one user item panics while the library lets go of an old stream on the control thread - inside the tick
+/// that publishes the first run over the new stream (the snapshot was the last owner after restart(false)), or inside
+/// restart(true) (the snapshot is cleared while it is the last owner). The caller catches the unwind and goes on using the
+/// matcher: everything it observes afterwards has to be as consistent as without the panic, and no item is destroyed twice
+/// (items behind the panicking one may never be destroyed - that is a leak, not a violation of "at most once").
+fn scenario_destructor_panics(rng: &mut Rng, id: String, rep: &mut Report, props: &[&str]) {
+    use std::panic::{catch_unwind, AssertUnwindSafe};
+    let threads = *rng.pick(&[1usize, 2, 4]);
+    reset_ctl(true);
+    let mut w = World::new(id, rng, threads, 1, None);
+    let k = w.new_injector();
+    w.edit(0, *rng.pick(&["o", "", "a"]));
+    let n_old = rng.range(3, 60);
+    let first_old = w.next_id.load(Ordering::Relaxed);
+    w.push_via(k, n_old, rng.coin());
+    let mut g = 0;
+    while w.tick(50).running && g < 100 {
+        g += 1;
+    }
+    let inside_restart = rng.chance(1, 3);
+    w.restart(false);
+    while !w.handles.is_empty() {
+        w.drop_injector(0);
+    }
+    let k2 = w.new_injector();
+    let n_new = if rng.coin() { rng.range(1, n_old.max(2) - 1) } else { n_old + rng.range(1, 20) };
+    w.push_via(k2, n_new, rng.coin());
+    w.edit(0, *rng.pick(&["f", "b", "oo"]));
+    for i in first_old..first_old + n_old as u32 {
+        w.reg.leak_ok[i as usize].store(true, Ordering::Relaxed);
+    }
+    let victim = first_old + rng.below(n_old) as u32;
+    let mut unwound = false;
+    if inside_restart {
+        // the worker moves on to the new stream and is held at the entry of its run: the retained snapshot is the last owner
+        pause_at(Point::RunEntry);
+        let st = w.n().tick(0);
+        if !st.running || !wait_paused(0, 2000) {
+            rep.count("directed.destructor-panic.not-reached");
+            cancel_pause(0);
+            release_all();
+            finish(w, rep, props, "destructor-panics");
+            return;
+        }
+        w.note("tick(0): the run over the new stream is held at its entry".into());
+        w.reg.panic_on_drop[victim as usize].store(true, Ordering::Relaxed);
+        w.note(format!("the destructor of item id {victim} (old stream) is armed to panic"));
+        let old = w.cur;
+        stream_handles_add(&w.reg, old, -1);
+        unwound = catch_unwind(AssertUnwindSafe(|| w.n().restart(true))).is_err();
+        w.cur += 1;
+        stream_handles_add(&w.reg, w.cur, 1);
+        w.frozen = None;
+        w.snap_stream = None;
+        w.has_hole = false;
+        w.note(format!("restart(true) stream {old} -> {} (unwound: {unwound})", w.cur));
+        release(0);
+        let _k3 = w.new_injector();
+        w.check_active_injectors("restart(true) that unwound from a user destructor, then injector()");
+        if rng.coin() {
+            w.new_injector();
+            w.check_active_injectors("a second injector()");
+        }
+        let k3 = w.handles.len() - 1;
+        w.push_via(k3, rng.range(1, 30), rng.coin());
+        rep.count("directed.destructor-panic.inside-restart");
+    } else {
+        w.reg.panic_on_drop[victim as usize].store(true, Ordering::Relaxed);
+        w.note(format!("the destructor of item id {victim} (old stream) is armed to panic"));
+        for _ in 0..40 {
+            let r = catch_unwind(AssertUnwindSafe(|| w.n().tick(50)));
+            if r.is_err() {
+                unwound = true;
+                w.note("tick(50) unwound from the destructor of a user item; the caller goes on".into());
+                break;
+            }
+            if w.reg.drops[victim as usize].load(Ordering::Relaxed) > 0 {
+                break;
+            }
+        }
+        rep.count("directed.destructor-panic.inside-tick");
+    }
+    if unwound {
+        rep.count("directed.destructor-panic.unwound-through-the-api");
+    }
+    w.reg.panic_on_drop[victim as usize].store(false, Ordering::Relaxed);
+    // from here on: ordinary use, every tick is checked as usual
+    let mut g = 0;
+    while w.tick(30).running && g < 200 {
+        g += 1;
+    }
+    w.check_active_injectors("after the unwound call");
+    let (_, expected) = w.expected_quiescent();
+    let got: Vec<(u32, u32)> = w.nucleo.as_ref().unwrap().snapshot().matches().iter().map(|m| (m.score, m.idx)).collect();
+    if got != expected {
+        let msg = format!(
+            "after a user destructor panicked while the old stream was released (unwound: {unwound}) the quiescent snapshot has {} matches {:?}..., the new stream gives {} {:?}...",
+            got.len(),
+            &got[..got.len().min(5)],
+            expected.len(),
+            &expected[..expected.len().min(5)]
+        );
+        w.problem("C12", "new-stream-results-wrong-after-restart", msg);
+    }
+    let twice = w.reg.double_drop.load(Ordering::Relaxed) + w.reg.bad_canary.load(Ordering::Relaxed);
+    if twice > 0 {
+        w.problem("C11", "payload-dropped-twice", format!("{twice} destructor calls on items that had been destroyed already"));
+    }
+    finish(w, rep, props, "destructor-panics");
+}
+
 pub fn run_directed(opts: &Opts, rep: &mut Report, props: &[&str]) {
     if opts.shard == 0 && opts.replay.is_none() && !opts.small && props.contains(&"C12") && !cfg!(miri) {
         huge_snapshot_restart(rep);
@@ -647,6 +758,7 @@ pub fn run_directed(opts: &Opts, rep: &mut Report, props: &[&str]) {
             0 | 1 => scenario_two_in_flight(&mut rng, id, rep, props),
             2 => scenario_cancel_mid_run(&mut rng, id, rep, props),
             3 | 4 => scenario_restart(&mut rng, id, rep, props),
+            5 if (idx / 8) % 2 == 0 => scenario_destructor_panics(&mut rng, id, rep, props),
             6 => scenario_publish_between_reads(&mut rng, id, rep, props),
             7 => scenario_update_config_mid_run(&mut rng, id, rep, props),
             _ => scenario_typing(&mut rng, id, rep, props),
